@@ -6,6 +6,7 @@ helper lemmas are in `Ca/ObjLemmasC03.lean`, `Ca/ObjLemmas.lean`, `Ca/ObjLemmasS
 -/
 import KrillModel.Ca.ObjLemmasC03
 import KrillModel.Ca.ObjLemmasSync
+import KrillModel.Ca.LemmasReach
 namespace KM.Props.C03
 open KM.Ca.Pub
 
@@ -142,11 +143,63 @@ example : ∃ (res : List Nat) (c : ChildM) (rcn key : Nat),
     c.isIssued key = true ∧ c.parentNameForRcn rcn ∈ res ∧ c.parentNameForRcn rcn ≠ rcn :=
   ⟨[0], { usedKeys := [(5, some 0)], rcnMap := [(0, 7)] }, 7, 5, by decide, by decide, by decide⟩
 
-/-- A request for a key without certificate is refused (not answered positively). -/
+/-- A request for a key the child never presented is refused (not answered positively). -/
 theorem revoke_request_unknown_key_refused (res : List Nat) (c : ChildM) (rcn key : Nat)
-    (hiss : c.isIssued key = false) (hclass : c.parentNameForRcn rcn ∈ res) :
+    (hiss : c.isIssued key = false) (hrev : c.isRevoked key = false) (hclass : c.parentNameForRcn rcn ∈ res) :
     (processChildRevokeKey res c rcn key).positive = false := by
-  simp [processChildRevokeKey, hclass, hiss, RevokeOut.positive]
+  simp [processChildRevokeKey, hclass, hiss, hrev, RevokeOut.positive]
+
+/-- Since fix 7be8c4c6 (F-C02-2): a request for a key that this CA marked `Revoked` itself is
+answered positively and changes nothing.  The decision table is complete: every request is
+ignored (class unknown), confirmed-as-done (key revoked here), refused (key never used) or
+executed (`revoke_request_effective`).
+
+Full statement wanted for this arm: "the positive answer is truthful - the certificate that was
+issued for the key is no longer published and its serial is on the CRL until it expires".  What is
+proved: (i) whatever leaves the published set of a key set is on that set's revocation list until
+it expires, for every history (`superseded_revoked_ca`, no hypothesis on keys); (ii) each command
+that sets `Revoked` removes the certificate of the key in the same command
+(`C04.revoke_removes_certificate` for the request, the `removed` list of
+`ChildCertificatesUpdated` for `shrink_overclaiming` / unsuspend, applied by
+`CertAuth::apply` together with the `Revoked` marks - `KM.CaK.revokeEverywhere`).  What is MISSING
+for the state-level statement "`Revoked` for this child ⇒ no issued or suspended certificate for
+the key in any class": it is not part of `Inv` (`UsedInv` speaks about `InUse` only) and it is
+false when two children present the same key - the second child can have the key certified again
+while the first child's entry stays `Revoked` (`revoked_entry_beside_live_certificate` below); it
+needs the input assumption "no two children present the same key" that C02's
+`ActiveChildHasCert` needs as well. -/
+theorem revoke_request_for_revoked_key_confirmed (res : List Nat) (c : ChildM) (rcn key : Nat)
+    (hrev : c.isRevoked key = true) (hclass : c.parentNameForRcn rcn ∈ res) :
+    processChildRevokeKey res c rcn key = .alreadyRevoked ∧
+    (processChildRevokeKey res c rcn key).positive = true ∧
+    pinnedRevokedKeyRefused res c rcn key = .error := by
+  have hiss : c.isIssued key = false := by
+    unfold ChildM.isRevoked at hrev; unfold ChildM.isIssued
+    cases h : get? c.usedKeys key with
+    | none => rfl
+    | some v => cases v with
+      | none => rfl
+      | some _ => rw [h] at hrev; cases hrev
+  simp [processChildRevokeKey, pinnedRevokedKeyRefused, hclass, hiss, hrev, RevokeOut.positive]
+
+/-- Non-vacuity. -/
+example : ∃ (res : List Nat) (c : ChildM) (rcn key : Nat), c.isRevoked key = true ∧ c.parentNameForRcn rcn ∈ res :=
+  ⟨[0], { usedKeys := [(5, none)], rcnMap := [] }, 0, 5, by decide, by decide⟩
+
+/-- The corner named above, on the aggregate model: child 7 and child 8 present the same key 6;
+the key is revoked on 7's request (both entries become `Revoked`, the certificate is removed), 8
+has it certified again - 7's entry is still `Revoked` while a certificate for key 6 is issued. -/
+theorem revoked_entry_beside_live_certificate :
+    let s := KM.CaK.Sys.run {} [ .repoUpdate [], .addParent 9,
+      .updateEntitlements 9 [⟨0, [1, 2], 100, []⟩] 0 [4],
+      .updateRcvdCert 0 4 { res := [1, 2], na := 100 } 50 [],
+      .childAdd 7 [1], .childAdd 8 [1], .childCertify 7 0 6 none 60, .childCertify 8 0 6 none 60,
+      .childRevokeKey 7 0 6, .childCertify 8 0 6 none 60 ]
+    KM.CaK.Reachable s ∧
+    ((KM.AMap.get s.ca.children 7).bind fun c => KM.AMap.get c.usedKeys 6) = some .revoked ∧
+    ((KM.AMap.get s.ca.classes 0).map fun rc => (KM.AMap.get rc.certs.issued 6).isSome) = some true ∧
+    s.exec (.childRevokeKey 7 0 6) = .stored [] s :=
+  ⟨KM.CaK.reachable_run .init _, by decide, by decide, by decide⟩
 
 /-- What remains open (finding F-C03-2): the hypothesis "the class exists" cannot be dropped.  A
 class-name mapping whose parent-side class does not exist (accepted with a warning by
